@@ -72,11 +72,16 @@ Definition set_obj (D : sdb) (a : N) (o : obj) : sdb := mksdb (<[a := o]> (objs 
     the number of CREATEs the contract has made (real nonce - 1 for a contract) *)
 Definition NONCE_SLOT : Z := -1.
 Definition CODE_SLOT : Z := -2.
+(** 1 for an account made by CREATE (its real nonce is 1 from the start): with the code flag, what go-ethereum's
+    address-collision test reads.  It matters when a precompile call inside a constructor flushed the new account
+    to the keeper and the creation was then reverted (K3): the address is taken for the rest of the transaction. *)
+Definition CREATED_SLOT : Z := -3.
 (** a freshly loaded object: balance, nonce and code hash are read from the keeper at that moment and stay in the
     object (SetAccount writes them back at every commit, also after the account was deleted in between) *)
 Definition clean_obj (W : world) (a : N) : obj :=
   mkobj (zg (bank W) a) ∅
-        (<[NONCE_SLOT := zg (store W) (a, NONCE_SLOT)]> (<[CODE_SLOT := zg (store W) (a, CODE_SLOT)]> ∅)) ∅ false.
+        (<[NONCE_SLOT := zg (store W) (a, NONCE_SLOT)]> (<[CODE_SLOT := zg (store W) (a, CODE_SLOT)]>
+           (<[CREATED_SLOT := zg (store W) (a, CREATED_SLOT)]> ∅))) ∅ false.
 (** getStateObject: live object, else load nonce/code/balance from the keeper *)
 Definition load (W : world) (D : sdb) (a : N) : sdb :=
   match objs D !! a with
@@ -218,7 +223,8 @@ Definition commit_one (W : world) (D : sdb) (a : N) : world * sdb * bool :=
                            | None => match ostor o2 !! k with Some c => c | None => zg (store W2) (a, k) end
                            end in
         (mkworld (bank W2) (supply W2) (wexists W2) (deleg W2) (unbond W2) (wdaddr W2) (pending W2) (broken W2) (grants W2)
-                 (<[(a, NONCE_SLOT) := rd NONCE_SLOT]> (<[(a, CODE_SLOT) := rd CODE_SLOT]> (store W2))),
+                 (<[(a, NONCE_SLOT) := rd NONCE_SLOT]> (<[(a, CODE_SLOT) := rd CODE_SLOT]>
+                    (<[(a, CREATED_SLOT) := rd CREATED_SLOT]> (store W2)))),
          set_obj D a o2, true)
   end.
 
@@ -449,10 +455,15 @@ Fixpoint exec_instr (order : list N) (o self : N) (i : instr) (s : st) {struct i
       match nth_error addrs (Z.to_nat n) with
       | None => after_call self catch rec ((W, D1), Fail)      (* the harness supplies enough addresses *)
       | Some t =>
+          (* address collision: the target has a non-zero nonce or code (ErrContractAddressCollision, before the snapshot) *)
+          let D1c := load W D1 t in
+          if negb (read_state W D1c t CREATED_SLOT =? 0) || negb (read_state W D1c t CODE_SLOT =? 0)
+          then after_call self catch rec ((W, D1c), Fail) else
           after_call self catch rec
             (do_call_gen true order (W, D1) self t value
                (fun s' => let '(W', D') := s' in
-                          let s1 := (W', reset_obj D' t) in     (* CreateAccount (the transfer has been made: the balance is carried over) *)
+                          (* CreateAccount (the transfer has been made: the balance is carried over), SetNonce(new, 1) *)
+                          let s1 := (W', set_state W' (reset_obj D' t) t CREATED_SLOT 1) in
                           let '(s2, oc) := run body t s1 in
                           match oc with
                           | Ok => ((fst s2, if setcode then set_state (fst s2) (snd s2) t CODE_SLOT 1 else snd s2), Ok)
@@ -483,6 +494,17 @@ Definition run_tx (order : list N) (W0 : world) (value : Z) (t : top) : world * 
   let '(W1, _, ok) := commit order W D in
   if ok then match oc with Ok => (W1, true) | Fail => (W0, false) end else (W0, false).
 
+(** the number of logs in the transaction's response: those of the surviving frames (a failed transaction has none) *)
+Definition run_tx_logs (order : list N) (W0 : world) (value : Z) (t : top) : nat :=
+  let o := 0%N in
+  let r := match t with
+           | TopCall c body => do_call order (W0, sdb0) o c value (exec_list order o c body)
+           | TopPre p => do_call order (W0, sdb0) o (pre_target p) value (run_pre order o o p)
+           end in
+  let '((W, D), oc) := r in
+  let '(_, _, ok) := commit order W D in
+  if ok then match oc with Ok => logs D | Fail => O end else O.
+
 (** * cases and observations, as the harness prints them *)
 Record ecase := mkecase {
   e_bal : list Z; e_deleg : list Z; e_reward : list Z; e_wd : list N;
@@ -493,7 +515,8 @@ Record eobs := mkeobs {
   b_ok : bool; b_bal : list Z; b_supply : Z; b_deleg : list Z; b_unbond : list Z; b_wd : list Z;
   b_storage : list (N * Z * Z);
   b_alive : list Z;                   (* contracts 2..4 and the CREATE addresses 14..19: 0 no auth account, 1 account without code, 2 with code *)
-  b_nonce : list Z                    (* CREATEs made by the contracts 2..4 (account nonce - 1) *)
+  b_nonce : list Z;                   (* CREATEs made by the contracts 2..4 (account nonce - 1) *)
+  b_logs : Z                          (* number of logs in the transaction's response *)
 }.
 Global Instance eobs_eq_dec : EqDecision eobs.
 Proof. solve_decision. Defined.
@@ -515,14 +538,15 @@ Definition world_of (c : ecase) (mod_bal : list Z) : world :=
           (list_to_map (map (fun '(g, d, l) => ((g, d), l)) (e_grants c)))
           (list_to_map [((2%N, CODE_SLOT), 1); ((3%N, CODE_SLOT), 1); ((4%N, CODE_SLOT), 1)]).
 
-Definition observe (c : ecase) (W : world) (ok : bool) : eobs :=
+Definition observe (c : ecase) (W : world) (ok : bool) (nlogs : nat) : eobs :=
   mkeobs ok (map (fun a => zg (bank W) a) (nseq 20)) (supply W)
          (map (fun a => zg (deleg W) a) (nseq 5)) (map (fun a => zg (unbond W) a) (nseq 5))
          (map (fun a => Z.of_N (withdraw_addr W a)) (nseq 5))
          (flat_map (fun '(a, k) => let v := zg (store W) (a, k) in if v =? 0 then [] else [(a, k, v)]) (e_slots c))
          (map (fun a => if bool_decide (a ∈ wexists W) then (if zg (store W) (a, CODE_SLOT) =? 0 then 1 else 2) else 0)
               [2%N; 3%N; 4%N; 14%N; 15%N; 16%N; 17%N; 18%N; 19%N])
-         (map (fun a => zg (store W) (a, NONCE_SLOT)) [2%N; 3%N; 4%N]).
+         (map (fun a => zg (store W) (a, NONCE_SLOT)) [2%N; 3%N; 4%N])
+         (Z.of_nat nlogs).
 
 (** well-formed programs: SELFDESTRUCT halts its frame, so nothing follows it in a body *)
 Fixpoint sd_ok (i : instr) : bool :=
@@ -543,7 +567,8 @@ Definition sd_ok_top (t : top) : bool :=
 Definition check_case (x : ecase * list Z * eobs) : bool :=
   let '(c, mods, ob) := x in
   let '(W, ok) := run_tx (e_order c) (world_of c mods) (e_value c) (e_top c) in
-  sd_ok_top (e_top c) && bool_decide (observe c W ok = ob).
+  sd_ok_top (e_top c) &&
+  bool_decide (observe c W ok (run_tx_logs (e_order c) (world_of c mods) (e_value c) (e_top c)) = ob).
 
 Fixpoint mismatches_from (i : nat) (cs : list (ecase * list Z * eobs)) : list nat :=
   match cs with
